@@ -98,7 +98,8 @@ TableKeyHash  == HashString(<<40,104,97,115,104,32,116,97,98,108,101,41>>, FILE_
 TableKeyBlock == HashString(<<40,98,108,111,99,107,32,116,97,98,108,101,41>>, FILE_KEY)    \* "(block table)"
 
 Magic == <<77, 80, 81, 26>>         \* 'M' 'P' 'Q' 0x1A
-HeaderSize(ver) == IF ver = 0 THEN 32 ELSE 44
+\* V1 32 bytes, V2 44, V3 68 (V2 + archive_size_64, bet_table_offset, het_table_offset; mpq.md "MPQ Headers")
+HeaderSize(ver) == IF ver = 0 THEN 32 ELSE IF ver = 1 THEN 44 ELSE 68
 SectorSize(shift) == SectorBase * (2 ^ shift)
 
 ---------------------------------------------------------------------------
@@ -162,7 +163,9 @@ ParseHeader(bs, base) ==
         hibtlo  |-> IF v2 THEN U32At(bs, base + 32) ELSE WZero,
         hibthi  |-> IF v2 THEN U32At(bs, base + 36) ELSE WZero,
         hthi    |-> IF v2 THEN U16At(bs, base + 40) ELSE 0,
-        bthi    |-> IF v2 THEN U16At(bs, base + 42) ELSE 0 ]
+        bthi    |-> IF v2 THEN U16At(bs, base + 42) ELSE 0,
+        \* V3: 64-bit archive size and the HET/BET positions (24 bytes at +44)
+        v3ext   |-> IF ver = 2 /\ base + 68 <= Len(bs) THEN SubSeq(bs, base + 45, base + 68) ELSE <<>> ]
 
 \* What the reference requires of a V1/V2 header of an archive of `alen` bytes (from the header
 \* to the end of the file).  Evaluated on logged integers by Trace_MpqFormat as well.
@@ -183,12 +186,21 @@ HeaderNat(h) ==    \* header fields as naturals (-1 = too large for a small arch
   [ hsize |-> NatOf(h.hsize), asize |-> NatOf(h.asize), ver |-> h.ver, shift |-> h.shift,
     htpos |-> NatOf(h.htpos), btpos |-> NatOf(h.btpos), htcount |-> NatOf(h.htcount),
     btcount |-> NatOf(h.btcount), hibt |-> IF h.hibthi = WZero THEN NatOf(h.hibtlo) ELSE -1,
-    hthi |-> h.hthi, bthi |-> h.bthi ]
+    hthi |-> h.hthi, bthi |-> h.bthi,
+    \* V3 extension: archive size (low dword as a natural, high dword must be 0) and whether HET/BET positions are all zero
+    asize64 |-> IF Len(h.v3ext) = 24 /\ SubSeq(h.v3ext, 5, 8) = <<0, 0, 0, 0>> THEN NatOf(U32At(h.v3ext, 0)) ELSE -1,
+    nohetbet |-> Len(h.v3ext) = 24 /\ SubSeq(h.v3ext, 9, 24) = Zeros(16) ]
 
+\* A V3 header over classic tables only (no HET/BET: both positions 0) is a V2 header plus the 64-bit archive size.
 HeaderOk(hn, alen) ==
   /\ \A fld \in {"hsize", "asize", "htpos", "btpos", "htcount", "btcount", "hibt"} : hn[fld] >= 0
-  /\ HeaderConforms(hn.hsize, hn.asize, hn.ver, hn.shift, hn.htpos, hn.btpos, hn.htcount, hn.btcount,
-                    hn.hibt, hn.hthi, hn.bthi, alen)
+  /\ IF hn.ver = 2
+     THEN /\ hn.hsize = HeaderSize(2) /\ hn.asize64 = alen /\ hn.nohetbet
+          /\ HeaderConforms(HeaderSize(1), hn.asize, 1, hn.shift, hn.htpos, hn.btpos, hn.htcount, hn.btcount,
+                            hn.hibt, hn.hthi, hn.bthi, alen)
+          /\ hn.htpos >= HeaderSize(2) /\ hn.btpos >= HeaderSize(2)
+     ELSE HeaderConforms(hn.hsize, hn.asize, hn.ver, hn.shift, hn.htpos, hn.btpos, hn.htcount, hn.btcount,
+                         hn.hibt, hn.hthi, hn.bthi, alen)
 
 \* encrypted table of `cnt` 16-byte entries at archive offset pos -> 4*cnt plain words
 TableWords(bs, base, pos, cnt, key) ==
@@ -466,14 +478,15 @@ WEmitBlock(st, cfg) ==
 
 \* optional hi-block table (V2): one u16 per block, all zero for a small archive, not encrypted
 WEmitHiBlock(st, cfg) ==
-  IF cfg.ver = 1 /\ cfg.hibt
+  IF cfg.ver >= 1 /\ cfg.hibt
   THEN [st EXCEPT !.hibtpos = Len(st.img), !.img = st.img \o Zeros(2 * Len(st.blocks))]
   ELSE st
 
 HeaderBytes(st, cfg) ==
   Magic \o LE32n(HeaderSize(cfg.ver)) \o LE32n(Len(st.img)) \o LE16(cfg.ver) \o LE16(cfg.shift)
         \o LE32n(st.htpos) \o LE32n(st.btpos) \o LE32n(cfg.hcount) \o LE32n(Len(st.blocks))
-        \o (IF cfg.ver = 1 THEN LE32n(st.hibtpos) \o LE32n(0) \o LE16(0) \o LE16(0) ELSE <<>>)
+        \o (IF cfg.ver >= 1 THEN LE32n(st.hibtpos) \o LE32n(0) \o LE16(0) \o LE16(0) ELSE <<>>)
+        \o (IF cfg.ver = 2 THEN LE32n(Len(st.img)) \o LE32n(0) \o Zeros(16) ELSE <<>>)   \* archive_size_64, BET = HET = 0
 
 WPatchHeader(st, cfg) ==
   [st EXCEPT !.img = HeaderBytes(st, cfg) \o SubSeq(st.img, HeaderSize(cfg.ver) + 1, Len(st.img))]
